@@ -278,7 +278,8 @@ enum ModelFault {
     MF_COUNT
 };
 const char* model_fault_name(int);
-bool apply_model_fault(Model& m, int fault, Rng& rng);
+/** semantic_only: avoid variants that are syntax errors in disguise (a duplicated typedef makes its name a type name) */
+bool apply_model_fault(Model& m, int fault, Rng& rng, bool semantic_only = false);
 
 std::string xml_escape(const std::string&, int mode = 0);
 
